@@ -1,19 +1,24 @@
 (* C04 — names and identifiers stay unique and lookups agree with the contents.
    Theorems only (proofs in Acme.C04.Proofs_Xxx); statements: Acme.C04.Invariant (Inv, op_ok, Reach),
    Acme.C04.Spec (KeysUnique, LookupByNameSpec). Layer 1 of the model: networks, buses, nodes,
-   interfaces, messages as opaque items, enums and enum values (33 operations). *)
+   interfaces, messages as opaque items, enums and enum values (33 operations); layer 2 (second half
+   of this file; Acme.C04.Reg, RegInv, Spec2): signals by name inside messages and multiplexers at
+   any nesting depth, a product construction over layers 1 and 3 ([step2] covers the whole operation
+   alphabet: inv2_step, inv2_step_covers_all). *)
 From stdpp Require Import gmap.
 From Acme.C04 Require Import Spec Proofs_New Proofs_Step Proofs_Cor Proofs_Witness Proofs_Pre.
+From Acme.C04 Require Import Spec2 Proofs_RegInv Proofs_RegCor Proofs_RegWitness.
 
 Theorem inv_init : Inv init.
 Proof. exact Proofs_New.inv_init. Qed.
 Print Assumptions inv_init.
 
-(* PARTIAL with respect to the operation alphabet of DESIGN Appendix A: proved for every operation of
-   the model (33 public mutators / constructors of the flat registries + NewOther); the full statement
-   [inv_step_full_statement] (Acme.C04.Spec: every mutator of the alphabet is modelled) is not
-   proved: 24 mutators on signals inside messages / multiplexers (I1, I2) and on shared
-   definitions (I8) are covered by the Go-side predicates of the harness only. *)
+(* PARTIAL with respect to the operation alphabet of DESIGN Appendix A: the layer-1 step function
+   [step] has the 33 public mutators / constructors of the flat registries + NewOther; the full
+   statement [inv_step_full_statement] (Acme.C04.Spec: every mutator of the alphabet is an operation
+   of [step]) does not hold for [step].  The remaining 24 mutators (signals inside messages /
+   multiplexers: I1, I2; shared definitions: I8) are operations of [step2], for which the statement
+   is proved below: inv2_step with inv2_step_covers_all. *)
 Theorem inv_step_partial : forall s o, Inv s -> op_ok s o -> Inv (fst (step s o)).
 Proof. exact Proofs_Step.inv_step. Qed.
 Print Assumptions inv_step_partial.
@@ -92,3 +97,84 @@ Theorem removal_releases_name : forall s, Inv s -> forall i Ii m M,
   ~ iface_sends (fst (step s (IfRemoveSent i m))) i (fun M' => m_name M' = m_name M).
 Proof. exact Proofs_Pre.removal_releases_name. Qed.
 Print Assumptions removal_releases_name.
+
+(* ---- layer 2: signals inside messages and multiplexers (first clause of the property) ------------- *)
+Theorem inv2_init : Inv2 init2.
+Proof. exact Proofs_RegInv.inv2_init. Qed.
+Print Assumptions inv2_init.
+
+(* every operation of the model (all 57 mutators of the alphabet, see inv2_step_covers_all) preserves
+   the invariant of layers 1, 2 and 3; [op_ok2] adds to [op_ok] the same side condition for signals:
+   an attach is not applied to a signal that already sits in another message / multiplexer (open
+   finding D20; signal_exclusive_without_side_condition_refuted in C05.v) *)
+Theorem inv2_step : forall s o, Inv2 s -> op_ok2 s o -> Inv2 (fst (step2 s o)).
+Proof. exact Proofs_RegInv.inv2_step. Qed.
+Print Assumptions inv2_step.
+
+Theorem inv2_step_covers_all : forall m, m ∈ all_mutators -> is_Some (model_op2 m).
+Proof. exact Proofs_RegWitness.inv2_step_covers_all. Qed.
+Print Assumptions inv2_step_covers_all.
+
+Theorem inv2_reachable : forall s, Reach2 s -> Inv2 s.
+Proof. exact Proofs_RegInv.inv2_reachable. Qed.
+Print Assumptions inv2_reachable.
+
+Theorem op_ok2_satisfiable :
+  all_ok2b init2 sample_history2 = true /\ all_accepted2 sample_history2 = true /\ Reach2 (run2 sample_history2).
+Proof. exact Proofs_RegWitness.op_ok2_satisfiable. Qed.
+Print Assumptions op_ok2_satisfiable.
+
+(* no two signals of a message share a name, whatever their multiplexing depth ([InMessage]: reachable
+   from the payload through multiplexer groups); the same among the signals one multiplexer holds *)
+Theorem signal_names_unique_all_depths : forall s, Reach2 s -> SignalNamesUnique s.
+Proof. exact Proofs_RegCor.signal_names_unique_all_depths. Qed.
+Print Assumptions signal_names_unique_all_depths.
+
+(* Message.GetSignalByName returns exactly the signal of the message that carries the name *)
+Theorem get_signal_by_name_spec : forall s, Reach2 s -> GetSignalByNameSpec s.
+Proof. exact Proofs_RegCor.get_signal_by_name_spec. Qed.
+Print Assumptions get_signal_by_name_spec.
+
+(* a name carried by a signal of the message - at any depth - is refused for an incoming signal, for
+   a signal held by an incoming multiplexer, and for a rename; the state is unchanged *)
+Theorem signal_name_used_refused : forall s m x y nm fits,
+  Inv2 s -> is_Some (msgs (base (l3 s)) !! m) ->
+  InMessage s m y -> sname s !! y = Some nm -> sname s !! x = Some nm ->
+  step2 s (MsgAttach m (Some x) fits) = (s, Err (cons (Duplicated, WName) nil)).
+Proof. exact Proofs_RegCor.signal_name_used_refused. Qed.
+Print Assumptions signal_name_used_refused.
+
+Theorem signal_nested_name_used_refused : forall s m x d y nm fits,
+  Inv2 s -> is_Some (msgs (base (l3 s)) !! m) ->
+  InMessage s m y -> sname s !! y = Some nm ->
+  Under s x d -> d <> x -> d <> y -> sname s !! d = Some nm -> is_Some (sname s !! x) ->
+  step2 s (MsgAttach m (Some x) fits) = (s, Err (cons (Duplicated, WName) nil)).
+Proof. exact Proofs_RegCor.signal_nested_name_used_refused. Qed.
+Print Assumptions signal_nested_name_used_refused.
+
+Theorem signal_rename_used_refused : forall s m x y new,
+  Inv2 s -> InMessage s m x -> InMessage s m y -> y <> x -> sname s !! y = Some new ->
+  step2 s (SigUpdateName x new) = (s, Err (cons (Duplicated, WName) nil)).
+Proof. exact Proofs_RegCor.signal_rename_used_refused. Qed.
+Print Assumptions signal_rename_used_refused.
+
+(* a name released by Message.RemoveSignal (of a signal at any depth) is free: the lookup finds
+   nothing and a signal carrying the name is accepted; a rename frees the old name *)
+Theorem signal_name_released_reusable : forall s m x y nm,
+  Inv2 s -> op_ok2 s (MsgRemoveSignal m x) -> is_Some (msgs (base (l3 s)) !! m) ->
+  InMessage s m x -> sname s !! x = Some nm ->
+  sname s !! y = Some nm -> spmsg s !! y = None -> spmux s !! y = None -> xshape s !! y = None ->
+  let s' := fst (step2 s (MsgRemoveSignal m x)) in
+  snd (step2 s (MsgRemoveSignal m x)) = Ok /\
+  lookup_signal_by_name s' m nm = None /\
+  snd (step2 s' (MsgAttach m (Some y) true)) = Ok.
+Proof. exact Proofs_RegCor.signal_name_released_reusable. Qed.
+Print Assumptions signal_name_released_reusable.
+
+Theorem signal_rename_releases_name : forall s m x old new,
+  Inv2 s -> InMessage s m x -> sname s !! x = Some old -> old <> new ->
+  snd (step2 s (SigUpdateName x new)) = Ok ->
+  lookup_signal_by_name (fst (step2 s (SigUpdateName x new))) m old = None /\
+  lookup_signal_by_name (fst (step2 s (SigUpdateName x new))) m new = Some x.
+Proof. exact Proofs_RegCor.signal_rename_releases_name. Qed.
+Print Assumptions signal_rename_releases_name.
